@@ -10,7 +10,9 @@ RULE = ('C01 DAG generator biased to duplication (fresh equal instances across p
         'reference executed set, each once; submit_task(use_cache=True) calls == reference loaded set, each once; nothing '
         'submitted or executed outside the requested closure or only below cached tasks; every caller-side instance among '
         'the requested tasks and (recursively) the parameters of executed tasks has result_meta set iff its node '
-        'succeeded, and equal instances agree. Non-trivial = at least one duplicate equal instance AND (non-empty proper '
+        'succeeded, and equal instances agree. Engine "after-abort": a run that aborts (continue_on_failure=False, more ready tasks than '
+        'workers) followed by a second run on the SAME Lab requesting something else - that second run must touch nothing outside its '
+        'own closure. Non-trivial = at least one duplicate equal instance AND (non-empty proper '
         'pre-cached subset OR a cached node with an uncached dependency). Distinct = hash of (engine, spec).')
 ASSUMPTIONS = ['loads are observed as Runner.submit_task(use_cache=True) calls (API level), executions as run() records']
 
@@ -38,8 +40,33 @@ def judge_obs(case: dict, obs) -> core.CaseResult:
     return core.CaseResult(findings=oracles.c03_once_only_if_needed(case, obs, ex), nontrivial=f['pre_cached_proper'], labels=('exhaustive-small',), summary=None)
 
 
+def check_after_abort(spec: dict) -> core.CaseResult:
+    """Run 1 aborts (continue_on_failure=False, a failing task, more ready tasks than workers); run 2 on the SAME Lab requests
+    something else: nothing outside run 2's closure may be executed or loaded by it."""
+    from pbt import dagrun
+    second = spec['second']
+    obs = dagrun.execute_case(spec, second=second)
+    ex1 = oracles.expect_for(spec, obs)
+    findings = []
+    if obs.second is not None:
+        spec2 = {**spec, 'requested': [{'ref': i, 'fresh': False} for i in second['requested']]}
+        ex2 = oracles.expect_second(spec, obs, ex1, second)
+        o2 = obs.second
+        o2.outcome = o2.outcome or 'raise'
+        for f in oracles.c03_once_only_if_needed(spec2, o2, ex2):
+            if f.signature not in ('C03:executed-outside-closure', 'C03:executed-more-than-once', 'C03:unneeded-task-submitted', 'C03:submitted-more-than-once'):
+                continue      # only the 'nothing outside the closure, nothing twice' clauses are judged for the run after an abort
+            findings.append(core.Finding(f.signature.replace('C03:', 'C03:run-after-aborted-run:'), f.detail))
+    labels = [f'backend={spec["lab"]["backend"]}', 'after-abort', f'run1={obs.outcome}']
+    return dagprop.result(obs, findings, obs.outcome == 'raise', labels, prop='C03')
+
+
 def plan(tier: str) -> list[dict]:
-    return list(dagprop.std_plan(tier, controlled=(12, 150, 2500), serial=(1, 60, 1200), fork=(2, 25, 500), spawn=(1, 6, 120))) + dagprop.exhaustive_jobs(tier, 4)
+    q = tier == 'quick'
+    jobs = list(dagprop.std_plan(tier, controlled=(10, 150, 2500), serial=(1, 60, 1200), fork=(2, 25, 500), spawn=(1, 6, 120))) + dagprop.exhaustive_jobs(tier, 4)
+    jobs += [{'engine': 'after-abort:fork', 'n': 20 if q else 500, 'hashseed': 3}, {'engine': 'after-abort:spawn', 'n': 5 if q else 80, 'hashseed': 4},
+             {'engine': 'after-abort:controlled', 'n': 60 if q else 2000, 'hashseed': 5}]
+    return jobs
 
 
 def run_job(rec: core.Recorder, job: dict, seed: int) -> None:
@@ -47,10 +74,31 @@ def run_job(rec: core.Recorder, job: dict, seed: int) -> None:
         dagprop.run_exhaustive_job(rec, job, judge_obs, failing=False, cached=True)
         return
     eng = job['engine']
+    if eng.startswith('after-abort:'):
+        from hypothesis import strategies as st
+        b = eng.split(':')[1]
+
+        @st.composite
+        def abort_spec(draw):
+            k = draw(st.integers(2, 4))
+            nodes = [{'id': 0, 'type': 'NN', 'name': 'n0', 'mode': 'raise:ValueError', 'read': True, 'payload': None, 'deps': {'s': None}}]
+            for i in range(1, k + 1):
+                nodes.append({'id': i, 'type': draw(st.sampled_from(['NN', 'N2', 'Z'])), 'name': f'n{i}', 'mode': 'ok', 'read': True, 'payload': i, 'deps': {'s': None}})
+            order = draw(st.permutations(list(range(k + 1))))
+            pos0 = draw(st.integers(0, 1))
+            order = [0] + [i for i in order if i != 0] if pos0 == 0 else order
+            return {'nodes': nodes, 'requested': [{'ref': i, 'fresh': False} for i in order],
+                    'lab': {'backend': b, 'max_workers': draw(st.sampled_from([1, 1, 2])), 'continue_on_failure': False, 'bust_cache': False,
+                            'storage': 'local', 'displays': False, 'context': {}},
+                    'pre_cached': [], 'schedule': draw(st.lists(st.integers(0, 7), max_size=8)),
+                    'second': {'same_lab': True, 'bust': False, 'requested': [draw(st.integers(1, k))]}}
+        core.run_hypothesis(rec, eng, abort_spec(), check_after_abort, max_examples=job['n'], seed=seed, shrink=(b == 'controlled'))
+        return
     strat = specs.dag_spec(max_nodes=5 if eng == 'spawn' else 9, backends=(eng,), dup_bias=True, bust=True)
     core.run_hypothesis(rec, eng, strat, check, max_examples=job['n'], seed=seed,
                         shrink=(eng == 'controlled' or rec.tier == 'thorough'))
 
 
 def replay(record: dict) -> core.CaseResult:
-    return check(record['case'])
+    case = record['case']
+    return check_after_abort(case) if 'second' in case else check(case)
